@@ -133,8 +133,7 @@ theorem foster_antisymm (sqrt : K → K) (W0 W1 H0 H1 h N00 N01 N10 N11 : K) :
     Gen.levy_foster_A_0_1_1 sqrt W0 W1 H0 H1 h N00 N01 N10 N11 = 0 := by
   refine ⟨?_, ?_, ?_⟩
   · simp only [Gen.levy_foster_A_0_0_1, Gen.levy_foster_A_0_1_0]
-    rw [show ((1:K)/10 * h + H0 ^ 2 + H1 ^ 2) = ((1:K)/10 * h + H1 ^ 2 + H0 ^ 2) by ring]
-    ring
+    ring_nf  -- also normalises the (commuted) arguments of the two `sqrt` atoms
   · simp only [Gen.levy_foster_A_0_0_0]; ring
   · simp only [Gen.levy_foster_A_0_1_1]; ring
 
